@@ -231,6 +231,10 @@ func NewPeer(name, local, remote, nodeID string) (*Peer, error) {
 	}
 
 	c, err := net.ListenUDP("udp", la)
+	if err == nil {
+		_ = c.SetReadBuffer(4 << 20) // bursts of thousands of agent-originated requests must not be lost on the harness' side
+	}
+
 	if err != nil {
 		return nil, err
 	}
